@@ -166,7 +166,7 @@ int main(int argc, char **argv) {
         if (pid == 0) {
             for (size_t i = *done; i < ncases; i++) {
                 char *buf = NULL; size_t len = 0;
-                alarm(3);
+                hc_alarm(3);
                 out = open_memstream(&buf, &len);
                 run_case(cases[i]);
                 fclose(out);
